@@ -743,6 +743,7 @@ func nrListed(entries []*m.S, n int) int {
 //@   store wt.nowWraps += requires nowLoopsFromNowRemainder: wt.nowWraps == old(wt).nowWraps + int(relNowTime / wrapDur) && relNowTime == uint64(old(wt).nowRelMS*rep.MediaTimescale/1000) + ato
 //@   store wt.startWraps += requires startLoopsFromStartRemainder: wt.startWraps == old(wt).startWraps + int(relStartTime / wrapDur) && relStartTime == uint64(old(wt).startRelMS*rep.MediaTimescale/1000) + ato
 //@   store relNowTime %= requires nowRemainderReduced: relNowTime < wrapDur
+//@   store relNowIdx = requires lastFinishedOrWrap: relNowIdx == nrSegs-1 || (relNowIdx >= -1 && relNowIdx < nrSegs && (relNowIdx >= 0 ==> segs[relNowIdx].EndTime <= relNowTime) && (relNowIdx+1 < nrSegs ==> segs[relNowIdx+1].EndTime > relNowTime))
 //@   exit 2 requires edgeNr: lsi.nr == max(se.startNr, nowNr)
 //@   exit 2 requires edgeHasEnded: segs[0].StartTime == 0 && specRelNow(rep, old(wt), atoMS) < int(wrapDur) ==> specEnd(a, rep, nowNr) <= specNowTicks(a, rep, old(wt), atoMS)
 //@   loop 1 invariant nextNr: relNowIdx+1 == nrSegs ==> nowNr+1 == (wt.nowWraps+1)*nrSegs+0
@@ -1493,3 +1494,26 @@ func contiguousUpTo(r *RepData, n int) bool {
 //@   callsite append:sampleItvls requires nextSegmentFromItsStart: vararg0.endIdx == 0 && vararg0.nrFillSamples == 0 && ((len(sampleItvls) == 0 && vararg0.segIdx == i) || (vararg0.segIdx == i+1 && vararg0.startIdx == 0) || (vararg0.segIdx == 0 && vararg0.startIdx == 0))
 //@   store sampleItvls[len(sampleItvls) - 1].endIdx = requires endIndexWithinItsSegment: sampleItvls[len(sampleItvls)-1].endIdx == uint32((s.EndTime - s.StartTime) / sampleDur) || sampleItvls[len(sampleItvls)-1].endIdx == sampleItvls[len(sampleItvls)-1].startIdx + uint32((rec.audioInEnd - nextAudioStart) / sampleDur) || sampleItvls[len(sampleItvls)-1].endIdx == uint32((rec.audioInEndAfterWrap - s.StartTime) / sampleDur)
 //@   store sampleItvls[len(sampleItvls) - 1].nrFillSamples = requires padOnlyAfterLastSegment: i == lastIdx && nrFills == uint32((rec.audioInEnd - s.EndTime) / sampleDur)
+
+// generateTimelineEntriesFromRef (C03, MPD side): the audio timeline walks the reference (video)
+// timeline boundary by boundary; t is always the audio frame boundary of the current reference
+// boundary (the same calcAudioTimeFromRef the segment recipe uses), every listed duration is the
+// distance to the audio boundary of the next reference boundary, the first entry carries the
+// explicit start, a run is extended only by an equal duration, and numbering starts where the
+// reference timeline starts.
+// mpd.Ptr of the dash-mpd library: a pointer to a copy of its argument.
+//@ extern func github.com/Eyevinn/dash-mpd/mpd.Ptr[uint64](v) (p)
+//@   ensures p != nil && *p == v && fresh(p)
+//@   allocates
+
+//@ func (*asset).generateTimelineEntriesFromRef
+//@   wiring
+//@   nowrap assumed
+//@   callsite append:se.entries requires entryIsBoundaryDistance: vararg0 != nil && vararg0.D == d && vararg0.R == 0 && (len(se.entries) == 0 ==> vararg0.T != nil && *vararg0.T == t)
+//@   store s.R++ requires runOfEqualDurations: s.D == d
+//@   store d := requires distanceToNextBoundary: d == calcAudioTimeFromRef(nextRefT, refTimescale, sampleDur, timeScale) - t
+//@   exit 2 requires sameNumbering: se.startNr == refSE.startNr && se.mediaTimescale == uint32(rep.MediaTimescale)
+//@   loop 2 invariant audioBoundaryOfRefBoundary: t == calcAudioTimeFromRef(nextRefT, refTimescale, sampleDur, timeScale)
+//@   loop 2 invariant se.startNr == refSE.startNr && se.mediaTimescale == uint32(rep.MediaTimescale) && (s == nil <==> len(se.entries) == 0)
+//@   loop 3 invariant audioBoundaryOfRefBoundary: t == calcAudioTimeFromRef(nextRefT, refTimescale, sampleDur, timeScale) && refD == rs.D
+//@   loop 3 invariant se.startNr == refSE.startNr && se.mediaTimescale == uint32(rep.MediaTimescale) && (s == nil <==> len(se.entries) == 0)
